@@ -9,18 +9,22 @@ for f in glob.glob(os.path.join(d, "*.txt")):
         fn, line = ln.rsplit(":", 1)
         seen.setdefault(fn, set()).add(int(line))
 def exec_lines(path):
+    """Executable lines inside functions (module- and class-level statements run at import, before any case, and are not listed)."""
     src = open(path, encoding="utf-8").read()
     code = compile(src, path, "exec")
     out = set()
-    stack = [code]
+    stack = [(code, True)]
     while stack:
-        c = stack.pop()
-        for _, _, line in c.co_lines():
-            if line is not None:
-                out.add(line)
+        c, toplevel = stack.pop()
+        if not toplevel:
+            for _, _, line in c.co_lines():
+                if line is not None and line != c.co_firstlineno:
+                    out.add(line)
         for k in c.co_consts:
             if isinstance(k, types.CodeType):
-                stack.append(k)
+                # class bodies also run at import
+                is_class_body = toplevel and k.co_name != "<lambda>" and ("__qualname__" in k.co_names or "__module__" in k.co_names)
+                stack.append((k, is_class_body))
     return out
 skip = ("data/", "__pycache__")
 total = miss = 0
